@@ -130,6 +130,11 @@ Definition p_file (ts : list string) : option ((list string * option yaml) * lis
           | Some (path, String "R" _ :: ts2) => Some ((path, Some (YTagged "<raw>" YNull)), ts2)   (* unparsed text *)
           | Some (path, String "B" _ :: ts2) => Some ((path, Some (YTagged "<raw>" YNull)), ts2)   (* raw bytes *)
           | Some (path, String "Y" _ :: ts2) => Some ((path, None), ts2)                           (* symlink *)
+          | Some (path, String "K" _ :: ts2) =>                                                    (* symlink to a YAML file: its content *)
+              match p_yaml (S (List.length ts2)) ts2 with
+              | Some (y, ts3) => Some ((path, Some y), ts3)
+              | None => None
+              end
           | Some (path, String "V" "" :: ts2) =>                                                   (* seen through a symlink *)
               match p_yaml (S (List.length ts2)) ts2 with
               | Some (y, ts3) => Some ((path, Some y), ts3)
